@@ -360,6 +360,35 @@ def drvDraw [Add α] [LT α] [DecidableLT α] (q us : List α) : Option (List Na
       let i := npSearchRight Q u
       if i = Q.length then npSearchLeft Q last else i)
 
+/-- the same with the cumulative sums `Q` given (what `draw` reads; used when `Q` was accumulated in
+    another precision, e.g. float32 masses) -/
+def drvDrawQ [LT α] [DecidableLT α] (Q us : List α) : Option (List Nat) :=
+  match Q.getLast? with
+  | none => none
+  | some last =>
+    some (us.map fun u =>
+      let i := npSearchRight Q u
+      if i = Q.length then npSearchLeft Q last else i)
+
+/-! ### histories on one `DiscreteRV` object: the state is the probability vector `q`
+    (`Q` is recomputed by `__init__` and by the `q` setter, never elsewhere) -/
+
+inductive DOp (α : Type)
+  | setQ (q : List α)
+  | draw (us : List α)
+
+/-- output of one operation: `none` for an assignment, the draws (or `IndexError`) for `draw` -/
+def stepD [Add α] [LT α] [DecidableLT α] (q : List α) : DOp α → List α × Option (Option (List Nat))
+  | .setQ q' => (q', Option.none)
+  | .draw us => (q, some (drvDraw q us))
+
+def runD [Add α] [LT α] [DecidableLT α] : List α → List (DOp α) → List (Option (Option (List Nat)))
+  | _, [] => []
+  | q, op :: ops => (stepD q op).2 :: runD (stepD q op).1 ops
+
+def finalQ [Add α] [LT α] [DecidableLT α] (q : List α) (ops : List (DOp α)) : List α :=
+  ops.foldl (fun s op => (stepD s op).1) q
+
 /-- `quantecon.random.draw(cdf, size)` with uniforms `us`: one index per uniform. For every
     `numbers.Integral` `size` (fix c73be8b: NumPy integers included) `len us = size` and an array is
     returned; for `size=None` one uniform, one (scalar) index. -/
@@ -533,30 +562,63 @@ def handleSc [Add α] [LT α] [DecidableLT α] [BEq α] (sc : Sc α) (toks : Lis
   | "dense" :: r =>
     match sc.mat r "P", simArgs r, sc.mat r "u" with
     | some P, some a, some us =>
-      let c := cdfsDense P
+      -- `cdfs=`: the cumulative sums as accumulated by the code in another precision (float32 `P`)
+      let c := match sc.mat r "cdfs" with
+        | some c => c
+        | none => cdfsDense P
       "cdfs=" ++ showMat sc.shw c ++ "|" ++ runSim P.length (pathDense c) a us
     | _, _, _ => "bad-op"
   | "histdense" :: r =>
     match sc.mat r "P" with
-    | some P => runHist P.length (pathDense (cdfsDense P)) sc.mat r
+    | some P =>
+      let c := match sc.mat r "cdfs" with
+        | some c => c
+        | none => cdfsDense P
+      runHist P.length (pathDense c) sc.mat r
     | _ => "bad-op"
   | "histsparse" :: r =>
     match sc.list r "data", kvNats r "indices", kvNats r "indptr", kvNat r "n" with
     | some data, some indices, some indptr, some n =>
-      runHist n (pathSparse (cdfs1d data indptr n) indices indptr) sc.mat r
+      let c := match sc.list r "c1d" with
+        | some c => c
+        | none => cdfs1d data indptr n
+      runHist n (pathSparse c indices indptr) sc.mat r
     | _, _, _, _ => "bad-op"
   | "sparse" :: r =>
     match sc.list r "data", kvNats r "indices", kvNats r "indptr", kvNat r "n", simArgs r, sc.mat r "u" with
     | some data, some indices, some indptr, some n, some a, some us =>
-      let c := cdfs1d data indptr n
+      let c := match sc.list r "c1d" with
+        | some c => c
+        | none => cdfs1d data indptr n
       "cdfs1d=" ++ showList sc.shw c ++ "|" ++ runSim n (pathSparse c indices indptr) a us
     | _, _, _, _, _, _ => "bad-op"
   | "drv" :: r =>
     match sc.list r "q", sc.list r "u" with
     | some q, some us =>
-      match drvDraw q us with
+      let Q := match sc.list r "Q" with
+        | some Q => Q
+        | none => cumsum q
+      match drvDrawQ Q us with
       | none => "ERR:IndexError"
-      | some idx => "Q=" ++ showList sc.shw (cumsum q) ++ "|" ++ showList toString idx
+      | some idx => "Q=" ++ showList sc.shw Q ++ "|" ++ showList toString idx
+    | _, _ => "bad-op"
+  | "drvhist" :: r =>
+    -- a DiscreteRV object: q0, then operations o<i>.kind=set (o<i>.q=…) / draw (o<i>.u=…)
+    match sc.list r "q0", kvNat r "nops" with
+    | some q0, some nops =>
+      let ops? : Option (List (DOp α)) := (List.range nops).mapM fun i =>
+        let t := opToks r i
+        match kv t "kind" with
+        | some "set" => (sc.list t "q").map DOp.setQ
+        | some "draw" => (sc.list t "u").map DOp.draw
+        | _ => Option.none
+      match ops? with
+      | some ops => " ## ".intercalate ((runD q0 ops).map fun o =>
+          match o with
+          | Option.none => "set-ok"
+          | some Option.none => "ERR:IndexError"
+          | some (some idx) => showList toString idx)
+      | Option.none => "bad-op"
     | _, _ => "bad-op"
   | "draw" :: r =>
     match sc.list r "cdf", sc.list r "u" with
